@@ -50,6 +50,7 @@ func init() {
 	execs["c07.conc"] = execC07Conc
 	execs["c07.hist"] = execC07Hist
 	execs["c07.csave"] = execC07Csave
+	execs["c07.obj"] = execC07Obj
 	gens["C07"] = genC07
 }
 
@@ -486,6 +487,10 @@ func c07GenSave(cur string, data []byte) error {
 
 // c07Child: `c07child file <cur> <tmp> <table tokens…>` | `c07child gen <cur> <hex>` — one save.
 func c07Child(args []string) {
+	if len(args) > 0 && args[0] == "obj" {
+		c07ChildObj(args[1:])
+		return
+	}
 	if len(args) < 3 {
 		os.Exit(3)
 	}
@@ -845,8 +850,23 @@ func c07RestoreDir(dir string, snap map[string][]byte) bool {
 // save issues for that op in a run that already carries the earlier faults; restore() puts the
 // directory back to what it was before this save (every calibration run changes it).
 func c07InjectedSave(childArgs []string, tmpPrefix, traceFile string, faults []c07Fault, restore func() bool) ([]string, bool, string) {
+	calls, killed, status := c07InjectedRun(childArgs, tmpPrefix, traceFile, len(faults), func(i int, calls []c07Sys) (*c07Sys, string) {
+		for k := range calls {
+			if calls[k].op == faults[i].op || (faults[i].op == "open" && calls[k].op == "openk") {
+				return &calls[k], faults[i].act
+			}
+		}
+		return nil, ""
+	}, restore)
+	return c07TraceTokens(calls), killed, status
+}
+
+// c07InjectedRun: the child under strace with nfaults faults; pick(i, calls) chooses, in the trace of a
+// run that already carries faults 0…i-1, the syscall fault i goes on ("kill" or "err").
+func c07InjectedRun(childArgs []string, tmpPrefix, traceFile string, nfaults int,
+	pick func(i int, calls []c07Sys) (*c07Sys, string), restore func() bool) ([]c07Sys, bool, string) {
 	var injects []string
-	for _, f := range faults {
+	for i := 0; i < nfaults; i++ {
 		if !restore() {
 			return nil, false, "err-io"
 		}
@@ -855,14 +875,11 @@ func c07InjectedSave(childArgs []string, tmpPrefix, traceFile string, faults []c
 			return nil, false, "err-strace"
 		}
 		calls, _ := c07ParseTrace(text, tmpPrefix)
-		for _, c := range calls {
-			if c.op == f.op || (f.op == "open" && c.op == "openk") {
-				if f.act == "kill" {
-					injects = append(injects, fmt.Sprintf("%s:signal=KILL:when=%d", c.name, c.idx))
-				} else {
-					injects = append(injects, fmt.Sprintf("%s:error=EIO:when=%d", c.name, c.idx))
-				}
-				break
+		if c, act := pick(i, calls); c != nil {
+			if act == "kill" {
+				injects = append(injects, fmt.Sprintf("%s:signal=KILL:when=%d", c.name, c.idx))
+			} else {
+				injects = append(injects, fmt.Sprintf("%s:error=EIO:when=%d", c.name, c.idx))
 			}
 		}
 	}
@@ -874,7 +891,154 @@ func c07InjectedSave(childArgs []string, tmpPrefix, traceFile string, faults []c
 		return nil, false, "err-strace"
 	}
 	calls, killed := c07ParseTrace(text, tmpPrefix)
-	return c07TraceTokens(calls), killed, ""
+	return calls, killed, ""
+}
+
+// ---- saves on ONE long-lived offsetDB in ONE process ------------------------------------------
+
+// c07ChildObj: `c07child obj <cur> <tmp> <afterPrefix> <nops> (c <stream> <off> | s)…` — one job
+// (source 1), one jobProvider / offsetDB for the whole process; after every save the offsets file is
+// copied to <afterPrefix><i> (or <afterPrefix><i>.none) for the parent to judge.
+func c07ChildObj(args []string) {
+	if len(args) < 4 {
+		os.Exit(3)
+	}
+	cur, tmp, after := args[0], args[1], args[2]
+	t := hx.NewToks(strings.Join(args[3:], " "))
+	nops := t.Int()
+	p := file.NewVerifC07Provider(cur, tmp, false, []file.VerifC07Job{{Filename: "f1", Inode: 1, SourceID: 1}})
+	seq, nsave := uint64(0), 0
+	for i := 0; i < nops && t.Err == nil; i++ {
+		switch t.Next() {
+		case "c":
+			stream := string(t.Bytes())
+			off := t.Int64()
+			seq++
+			func() {
+				defer func() { _ = recover() }()
+				p.Commit(1, stream, off, seq)
+			}()
+		case "s":
+			p.Save()
+			nsave++
+			if content, err := os.ReadFile(cur); err == nil {
+				_ = os.WriteFile(after+strconv.Itoa(nsave), content, 0o600)
+			} else {
+				_ = os.WriteFile(after+strconv.Itoa(nsave)+".none", nil, 0o600)
+			}
+		}
+	}
+}
+
+type c07ObjFault struct {
+	save    int
+	act, op string
+}
+
+// execC07Obj: c07.obj <nops> (c <stream> <off> | s)… <nf> (<save#> <act> <op>)…
+// result: per save of the process `sv <n> <trace…> killed <0|1> disk <hex|none> load L`.
+func execC07Obj(t *hx.Toks) string {
+	defer quietLogs()()
+	nops := t.Int()
+	ops := []string{strconv.Itoa(nops)}
+	for i := 0; i < nops && t.Err == nil; i++ {
+		switch op := t.Next(); op {
+		case "c":
+			ops = append(ops, "c", t.Next(), t.Next())
+		case "s":
+			ops = append(ops, "s")
+		default:
+			return "bad-case"
+		}
+	}
+	nf := t.Int()
+	var faults []c07ObjFault
+	for i := 0; i < nf && t.Err == nil; i++ {
+		faults = append(faults, c07ObjFault{t.Int(), t.Next(), t.Next()})
+	}
+	if t.Err != nil || !t.Done() {
+		return "bad-case"
+	}
+	dir := c07Dir()
+	defer os.RemoveAll(dir)
+	work := filepath.Join(dir, "w")
+	cur, tmp := filepath.Join(work, "offsets"), filepath.Join(work, "offsets.tmp")
+	after := filepath.Join(dir, "after.")
+	traceFile := filepath.Join(dir, "trace")
+	childArgs := append([]string{"obj", cur, tmp, after}, ops...)
+	restore := func() bool {
+		_ = os.RemoveAll(work)
+		if m, _ := filepath.Glob(after + "*"); m != nil {
+			for _, f := range m {
+				_ = os.Remove(f)
+			}
+		}
+		return os.MkdirAll(work, 0o755) == nil
+	}
+	calls, killed, status := c07InjectedRun(childArgs, tmp+".", traceFile, len(faults), func(i int, calls []c07Sys) (*c07Sys, string) {
+		seg := 0
+		for k := range calls {
+			if calls[k].op == "open" || calls[k].op == "openk" {
+				seg++
+			}
+			if seg == faults[i].save && (calls[k].op == faults[i].op || (faults[i].op == "open" && calls[k].op == "openk")) {
+				return &calls[k], faults[i].act
+			}
+		}
+		return nil, ""
+	}, restore)
+	if status != "" {
+		return status
+	}
+	// one segment per save: it starts at the save's open
+	var segs [][]c07Sys
+	for _, c := range calls {
+		if c.op == "" {
+			continue
+		}
+		if c.op == "open" || c.op == "openk" {
+			segs = append(segs, nil)
+		}
+		if len(segs) > 0 {
+			segs[len(segs)-1] = append(segs[len(segs)-1], c)
+		}
+	}
+	if killed {
+		// killed at the entry of a save's open (or between saves): a save with no executed syscall
+		if n := len(segs); n == 0 || (len(segs[n-1]) > 0 && segs[n-1][len(segs[n-1])-1].op == "close" && !segs[n-1][len(segs[n-1])-1].killed) {
+			segs = append(segs, nil)
+		}
+	}
+	judge := func(content []byte, exists bool) (string, string) {
+		if !exists {
+			return "none", "ok 0"
+		}
+		var res string
+		withNow(0, func() {
+			res = c07SafeLoad(func() ([]file.VerifC07Job, error) { return file.VerifC07Parse(string(content)) })
+		})
+		return hx.Enc(content), res
+	}
+	var out []string
+	for i, seg := range segs {
+		toks := c07TraceTokens(seg)
+		last := killed && i == len(segs)-1
+		var disk, load string
+		if last {
+			content, err := os.ReadFile(cur)
+			disk, load = judge(content, err == nil)
+		} else if content, err := os.ReadFile(after + strconv.Itoa(i+1)); err == nil {
+			disk, load = judge(content, true)
+		} else if _, err := os.Stat(after + strconv.Itoa(i+1) + ".none"); err == nil {
+			disk, load = judge(nil, false)
+		} else {
+			return "err-after-file"
+		}
+		rec := append([]string{"sv", strconv.Itoa(len(toks))}, toks...)
+		rec = append(rec, "killed", hx.B(last), "disk", disk, "load", load)
+		out = append(out, strings.Join(rec, " "))
+	}
+	return strings.Join(out, " ")
 }
 
 // execC07Hist: c07.hist <variant> <hasold> OLD <nsaves> (<nf> (<act> <op>)… NEW)…
@@ -1131,6 +1295,7 @@ func genC07(w *bufio.Writer, rng *hx.Rng, tier string) {
 	// ---- process part first (so that it is never cut by a volume limit) -------------------
 	genC07Proto(w, rng, thorough)
 	genC07Hist(w, rng, thorough)
+	genC07Obj(w, rng, thorough)
 
 	// ---- exhaustive small scope: every stream name over a delimiter alphabet ---------------
 	alpha := []byte{'a', ':', ' ', '-'}
@@ -1559,5 +1724,61 @@ func genC07Hist(w *bufio.Writer, rng *hx.Rng, thorough bool) {
 			old = payload(variant, rng.Intn(3))
 		}
 		line(variant, hasOld, old, steps)
+	}
+}
+
+// genC07Obj: commits and saves on ONE long-lived offsetDB in one process; a save whose write / sync /
+// rename / open fails (or the clean-up after it), followed by further commits and successful saves.
+func genC07Obj(w *bufio.Writer, rng *hx.Rng, thorough bool) {
+	streams := []string{hx.Enc([]byte("stdout")), hx.Enc([]byte("stderr")), hx.Enc([]byte("a:b"))}
+	emit := func(nsaves int, faults []c07ObjFault) {
+		var ops []string
+		off := int64(0)
+		for sv := 0; sv < nsaves; sv++ {
+			for c := rng.Range(1, 3); c > 0; c-- {
+				off += int64(rng.Range(1, 5000))
+				ops = append(ops, fmt.Sprintf("c %s %d", streams[rng.Intn(len(streams))], off))
+			}
+			ops = append(ops, "s")
+		}
+		fmt.Fprintf(w, "c07.obj %d %s %d", len(ops), strings.Join(ops, " "), len(faults))
+		for _, f := range faults {
+			fmt.Fprintf(w, " %d %s %s", f.save, f.act, f.op)
+		}
+		fmt.Fprintln(w)
+	}
+	emit(3, nil)
+	for _, op := range []string{"write", "fsync", "rename", "open", "close"} {
+		emit(3, []c07ObjFault{{1, "err", op}})
+		emit(3, []c07ObjFault{{2, "err", op}})
+	}
+	emit(3, []c07ObjFault{{1, "err", "write"}, {1, "err", "unlink"}})
+	emit(4, []c07ObjFault{{1, "err", "write"}, {2, "err", "fsync"}})
+	emit(4, []c07ObjFault{{2, "err", "fsync"}, {3, "kill", "rename"}})
+	emit(3, []c07ObjFault{{1, "err", "write"}, {3, "kill", "fsync"}}) // (strace keeps one injection per syscall name)
+	if !thorough {
+		return
+	}
+	ops := []string{"open", "write", "fsync", "rename", "close", "unlink"}
+	for i := 0; i < 80; i++ {
+		n := rng.Range(2, 5)
+		var fs []c07ObjFault
+		for sv := 1; sv <= n; sv++ {
+			if rng.Chance(2, 5) {
+				act := "err"
+				if sv == n && rng.Chance(1, 3) {
+					act = "kill"
+				}
+				op := ops[rng.Intn(len(ops))]
+				dup := false
+				for _, f := range fs {
+					dup = dup || f.op == op
+				}
+				if !dup {
+					fs = append(fs, c07ObjFault{sv, act, op})
+				}
+			}
+		}
+		emit(n, fs)
 	}
 }
